@@ -61,7 +61,7 @@ func vfStructureAddrs(b []byte) []uint64 {
 }
 
 // vfMutants enumerates the mutants of a file deterministically (parent and worker agree).
-func vfMutants(b []byte, thorough bool) []vfMutant {
+func vfMutants(b []byte, thorough bool, focus [][2]int) []vfMutant {
 	n := len(b)
 	interesting := make([]bool, n)
 	// bytes within a window of non-zero content are interesting; long zero runs (unused heap
@@ -78,6 +78,19 @@ func vfMutants(b []byte, thorough bool) []vfMutant {
 			for j := lo; j < hi; j++ {
 				interesting[j] = true
 			}
+		}
+	}
+	if focus != nil {
+		inFocus := make([]bool, n)
+		for _, f := range focus {
+			for j := f[0]; j < f[1] && j < n; j++ {
+				if j >= 0 {
+					inFocus[j] = true
+				}
+			}
+		}
+		for i := range interesting {
+			interesting[i] = interesting[i] && inFocus[i]
 		}
 	}
 	addrs := vfStructureAddrs(b)
@@ -239,12 +252,13 @@ type vfC07Job struct {
 	Base     string `json:"base"`
 	File     string `json:"file"` // path of the intact bytes
 	From, To int
-	Budget   uint64 `json:"budget"`
-	Thorough bool   `json:"thorough"`
-	Scratch  string `json:"scratch"`
-	Single   int    `json:"single"`   // >=0: run only this mutant, with allocation profiling
-	Deadline int64  `json:"deadline"` // unix seconds after which the worker stops (0: none)
-	CPUMs    int64  `json:"cpu_ms"`   // CPU time one mutant may use (0: no limit)
+	Budget   uint64   `json:"budget"`
+	Thorough bool     `json:"thorough"`
+	Scratch  string   `json:"scratch"`
+	Single   int      `json:"single"`   // >=0: run only this mutant, with allocation profiling
+	Deadline int64    `json:"deadline"` // unix seconds after which the worker stops (0: none)
+	CPUMs    int64    `json:"cpu_ms"`   // CPU time one mutant may use (0: no limit)
+	Focus    [][2]int `json:"focus,omitempty"`
 }
 
 // TestVerif_C07Worker is the worker side (re-executed test binary).
@@ -265,7 +279,7 @@ func TestVerif_C07Worker(t *testing.T) {
 		return
 	}
 	debug.SetGCPercent(50)
-	muts := vfMutants(intact, job.Thorough)
+	muts := vfMutants(intact, job.Thorough, job.Focus)
 	out := bufio.NewWriter(os.Stdout)
 	defer out.Flush()
 	tmp := filepath.Join(job.Scratch, fmt.Sprintf("m%d.h5", os.Getpid()))
@@ -375,11 +389,35 @@ func TestVerif_C07(t *testing.T) {
 	defer r.Finish()
 	dir := vkit.Scratch(t)
 	bases := vfLibBaseFiles(t, dir)
-	nCorpus, maxSize := 6, int64(4096)
+	nCorpus, maxSize := 6, int64(8192)
 	if r.Thorough() {
 		nCorpus, maxSize = 20, 16384
 	}
-	bases = append(bases, vfCorpusBaseFiles(nCorpus, maxSize)...)
+	{
+		covered := map[string]bool{}
+		small, _ := vfCorpusCover(vfCorpusScan(512, maxSize), nCorpus, covered)
+		for i := range small {
+			small[i].focus = nil // small files are mutated as a whole
+		}
+		bases = append(bases, small...)
+		// larger reference files (up to 64 KiB) that carry features none of the small ones has
+		// (e.g. compact layout): only the object headers carrying the new features are mutated
+		nFocus := 3
+		if r.Thorough() {
+			nFocus = 12
+		}
+		focused, _ := vfCorpusCover(vfCorpusScan(maxSize+1, 65536), nFocus, covered)
+		for i := range focused {
+			focused[i].name = strings.Replace(focused[i].name, "corpus:", "corpus-focus:", 1)
+		}
+		bases = append(bases, focused...)
+		var cov []string
+		for k := range covered {
+			cov = append(cov, k)
+		}
+		sort.Strings(cov)
+		r.Set("reader_features_covered_by_corpus_bases", cov)
+	}
 	// synthetic base: a chain of nested old-style groups as the reference library lays them
 	// out (cached symbol-table entries); a deviation near the bottom must not cost more than
 	// one near the top (work that multiplies per nesting level becomes a hang at this depth)
@@ -399,7 +437,17 @@ func TestVerif_C07(t *testing.T) {
 		if err != nil || depth != 30 {
 			r.Fail("synthetic-chain/intact-file-not-read-to-the-bottom", map[string]any{"error": fmt.Sprint(err), "levels_listed": depth})
 		} else {
-			bases = append(bases, vfBaseFile{"synth-sb0-cached-stab-chain-30", img, tr})
+			// every level has the same four structures; what distinguishes levels is only their
+			// depth, so (quick tier) the superblock and the levels 0, 1, 14, 15, 28, 29, 30 are
+			// mutated: both ends and the middle of the chain
+			var focus [][2]int
+			if !r.Thorough() {
+				focus = append(focus, [2]int{0, 96})
+				for _, lv := range []int{0, 1, 14, 15, 28, 29, 30} {
+					focus = append(focus, [2]int{96 + lv*184, 96 + (lv+1)*184})
+				}
+			}
+			bases = append(bases, vfBaseFile{"synth-sb0-cached-stab-chain-30", img, tr, focus})
 		}
 	}
 	// allocation budget: far above anything an intact read needs, far below a field-sized allocation
@@ -451,16 +499,19 @@ func TestVerif_C07(t *testing.T) {
 		n    int
 	}
 	var fjs []fileJob
+	var baseList []string
 	total := 0
 	for i, b := range bases {
 		p := filepath.Join(dir, fmt.Sprintf("base%d.h5", i))
 		os.WriteFile(p, b.bytes, 0o644)
-		n := len(vfMutants(b.bytes, r.Thorough()))
+		n := len(vfMutants(b.bytes, r.Thorough(), b.focus))
 		fjs = append(fjs, fileJob{b, p, n})
 		total += n
 		r.Sample(map[string]any{"base": b.name, "size": len(b.bytes), "mutants": n})
+		baseList = append(baseList, fmt.Sprintf("%s size=%d mutants=%d focus=%v", b.name, len(b.bytes), n, b.focus))
 	}
 	r.Set("mutants_total", total)
+	r.Set("bases", baseList)
 
 	workers := runtime.GOMAXPROCS(0)
 	type slice struct {
@@ -485,10 +536,10 @@ func TestVerif_C07(t *testing.T) {
 	done := 0
 	profiled := map[string]int{}
 	report := func(fj fileJob, idx int, verdict, detail string) {
-		muts := vfMutants(fj.base.bytes, r.Thorough())
+		muts := vfMutants(fj.base.bytes, r.Thorough(), fj.base.focus)
 		m := muts[idx]
 		kind := "lib"
-		if strings.HasPrefix(fj.base.name, "corpus:") {
+		if strings.HasPrefix(fj.base.name, "corpus") {
 			kind = "corpus"
 		}
 		d := map[string]any{"base": fj.base.name, "mutant": m.String(), "mutant_index": idx, "verdict": verdict, "detail": detail}
@@ -507,16 +558,19 @@ func TestVerif_C07(t *testing.T) {
 			// the profiled re-run is informative only: at most three per key, none once the
 			// time budget is used up
 			mu.Lock()
-			profiled[fj.base.name+"@"+stage]++
-			doProfile := profiled[fj.base.name+"@"+stage] <= 3 && !r.Expired()
+			profiled[vfC07BaseClass(fj.base)+"@"+stage]++
+			doProfile := profiled[vfC07BaseClass(fj.base)+"@"+stage] <= 3 && !r.Expired()
 			mu.Unlock()
 			if doProfile {
-				d["allocating_site_from_profile"] = vfC07Single(dir, fj.path, fj.base.name, idx, budget, r.Thorough())
+				d["allocating_site_from_profile"] = vfC07Single(dir, fj.path, fj.base.name, fj.base.focus, idx, budget, r.Thorough())
 			}
 			// keyed by base file and API stage (both deterministic); the profiled site is
 			// informative only (attribution by profile is not stable enough for a key)
 			_ = kind
-			r.Fail("alloc-over-budget/"+fj.base.name+"@"+stage, d)
+			// keyed by the class of the base file (library-written or reference file, with or
+			// without a chunked dataset) and the API stage — not by the file's name, which
+			// depends on the base selection
+			r.Fail("alloc-over-budget/"+vfC07BaseClass(fj.base)+"@"+stage, d)
 		case "fatal":
 			r.Fail("fatal("+detail+")/"+kind, d)
 		case "hang":
@@ -534,7 +588,7 @@ func TestVerif_C07(t *testing.T) {
 				r.Cap("time budget")
 				return
 			}
-			last, results, finished, stderrTail, hung := vfC07RunWorker(dir, vfC07Job{Base: s.fj.base.name, File: s.fj.path, From: from, To: s.to, Budget: budget, Thorough: r.Thorough(), Scratch: dir, Single: -1, Deadline: r.Deadline().Unix(), CPUMs: cpuLimitMs}, 20*time.Second)
+			last, results, finished, stderrTail, hung := vfC07RunWorker(dir, vfC07Job{Base: s.fj.base.name, Focus: s.fj.base.focus, File: s.fj.path, From: from, To: s.to, Budget: budget, Thorough: r.Thorough(), Scratch: dir, Single: -1, Deadline: r.Deadline().Unix(), CPUMs: cpuLimitMs}, 20*time.Second)
 			stoppedAt := -1
 			for _, res := range results {
 				if res.verdict == "deadline" {
@@ -563,7 +617,7 @@ func TestVerif_C07(t *testing.T) {
 			}
 			if hung {
 				// confirm alone with a longer limit
-				_, res2, fin2, err2, hung2 := vfC07RunWorker(dir, vfC07Job{Base: s.fj.base.name, File: s.fj.path, From: last, To: last + 1, Budget: budget, Thorough: r.Thorough(), Scratch: dir, Single: -1, CPUMs: cpuLimitMs}, 60*time.Second)
+				_, res2, fin2, err2, hung2 := vfC07RunWorker(dir, vfC07Job{Base: s.fj.base.name, Focus: s.fj.base.focus, File: s.fj.path, From: last, To: last + 1, Budget: budget, Thorough: r.Thorough(), Scratch: dir, Single: -1, CPUMs: cpuLimitMs}, 60*time.Second)
 				switch {
 				case hung2 && !fin2:
 					report(s.fj, last, "hang", vfLastRepoFrame(stderrTail))
@@ -740,8 +794,8 @@ func (w *vfTailWriter) Write(p []byte) (int, error) {
 }
 
 // vfC07Single re-runs one mutant with allocation profiling and returns the allocating site.
-func vfC07Single(dir, file, base string, idx int, budget uint64, thorough bool) string {
-	_, results, _, _, _ := vfC07RunWorker(dir, vfC07Job{Base: base, File: file, From: idx, To: idx + 1, Budget: budget, Thorough: thorough, Scratch: dir, Single: idx}, 60*time.Second)
+func vfC07Single(dir, file, base string, focus [][2]int, idx int, budget uint64, thorough bool) string {
+	_, results, _, _, _ := vfC07RunWorker(dir, vfC07Job{Base: base, Focus: focus, File: file, From: idx, To: idx + 1, Budget: budget, Thorough: thorough, Scratch: dir, Single: idx}, 60*time.Second)
 	for _, r := range results {
 		if r.verdict == "single" {
 			if i := strings.Index(r.detail, "site="); i >= 0 {
@@ -827,4 +881,24 @@ func vfCPUms() int64 {
 		return 0
 	}
 	return ru.Utime.Sec*1000 + int64(ru.Utime.Usec)/1000 + ru.Stime.Sec*1000 + int64(ru.Stime.Usec)/1000
+}
+
+// vfC07BaseClass: "lib" / "corpus" / "synth", with "+chunked" when the intact file holds a
+// chunked dataset (the full read of a chunked dataset sizes its buffers from the dataspace).
+func vfC07BaseClass(b vfBaseFile) string {
+	c := "lib"
+	switch {
+	case strings.HasPrefix(b.name, "corpus"):
+		c = "corpus"
+	case strings.HasPrefix(b.name, "synth"):
+		c = "synth"
+	}
+	if b.tree != nil {
+		for _, o := range b.tree.Objs {
+			if o.Kind == "dataset" && strings.Contains(strings.ToLower(o.Info), "chunked") {
+				return c + "+chunked"
+			}
+		}
+	}
+	return c
 }
